@@ -561,14 +561,15 @@ LEVEL_TEXT = ("Proved in Lean 4 for ALL Var trees (any depth/size; 32-bit ints; 
               "normalised denotation, both layouts; corollary of encode_in_rfc + C06 rfc_accept), roundtrip_int / roundtrip_scalars / "
               "roundtrip_object_members (what comes back), sink_concat / writer_refines (the 16000-byte flushing sink loses and duplicates nothing, "
               "every mode incl. XDL), read_chunks (reading in 16382-byte chunks with BOM probe = decode of the content, any size), file_roundtrip, "
-              "xdl_roundtrip_compact (Xdl::decode(Xdl::encode v) for identifier keys and class names: Y/N, name=value, Class{...}, compact layout). "
+              "xdl_roundtrip (Xdl::decode(Xdl::encode v) for identifier keys and class names: Y/N, name=value, Class{...}; compact AND pretty layout, "
+              "the latter with newline-only separators read in the WAIT_COMMA_OR_* states). "
               "Number formatting enters as the hypothesis H1 (snprintf %.Pg prints an RFC number lexeme); the driver's instance (Dtoa.fmtG) is "
               "compared with glibc byte for byte on every run. The model is tied to the code by the correspondence check under ASan (encode bytes in "
               "8 modes, decode∘encode, write/read through files slid across the 16382/16000 boundaries) and python3 json parses every JSON-mode output.")
 LEVEL_NOTE = ("Partial: bit-exact recovery of doubles/floats is H2 (atof(%.17g x) = x, glibc) - kept as `def double_roundtrip_full`, exercised by K "
               "and the python oracle on every generated double/float (denormals, +-DBL_MAX, -0, powers of two +-1ulp, random bits), not proved. "
-              "XDL round trip is proved for the compact layout only; the PRETTY layout (newline-separated members/items) is "
-              "`def xdl_roundtrip_pretty_full`: validated by K + the python expected-value oracle only (sink_concat and read_chunks do cover XDL). H1 is a hypothesis of the theorems, not proved for Dtoa.fmtG. "
+              "XDL: round trip proved for both layouts (keys [A-Za-z0-9_$][A-Za-z0-9_]*, class names not starting with a digit and not Y/N/true/false/null); "
+              "file_roundtrip is stated for JSON modes (sink_concat and read_chunks cover XDL files too). H1 is a hypothesis of the theorems, not proved for Dtoa.fmtG. "
               "Fixed in /repo for this property: 737b5bf (raw control characters), 88049f3 ('/' in quoted keys), a755d42 (found by this check: "
               "files of 1-2 bytes such as '5' or '[]' could not be read back), c9789c6 (C06: nesting limit). Not a defect as worded: -0.0 and "
               "integral doubles are written without fraction ('-0', '5') and come back as ints of the same numeric value; ints of 10+ characters "
